@@ -549,6 +549,8 @@ fn format(opt: opt::Opt) -> Result<i32> {
                 ignore::Error::WithPath { path, err } => match *err {
                     ignore::Error::Io(error) => match error.kind() {
                         std::io::ErrorKind::NotFound => {
+                            #[cfg(stylua_verif)]
+                            verif_sched::point("walker-error-pending");
                             error!("no file or directory found matching '{:#}'", path.display());
                             #[cfg(stylua_verif)]
                             verif_sched::point("walker-error");
